@@ -161,10 +161,53 @@ def digest_named(_job):
     return out
 
 
+def from_dir(_job):
+    """add_named_files_from_dir: one name per file (the file name without its last extension), each holding that file's bytes; loading
+    the unchanged directory again registers nothing new"""
+    from csvpath import CsvPaths
+    home = os.getcwd()
+    d = os.path.join(home, "fd")
+    shutil.rmtree(d, ignore_errors=True)
+    os.makedirs(os.path.join(d, "src"))
+    os.chdir(d)
+    out = {"exc": None, "problems": []}
+    files = {"orders.2024-01.csv": CONTENT[0], "orders.2024-02.csv": CONTENT[1], "customers.csv": CONTENT[2]}
+    want = {"orders.2024-01": CONTENT[0], "orders.2024-02": CONTENT[1], "customers": CONTENT[2]}
+    try:
+        with open("config.ini", "w") as fh:
+            fh.write(CONFIG_INI)
+        for n, b in files.items():
+            with open("src/" + n, "wb") as fh:
+                fh.write(b)
+        with Quiet():
+            paths = CsvPaths()
+            fm = paths.file_manager
+            for load in (1, 2):
+                fm.add_named_files_from_dir("src")
+                for name, b in want.items():
+                    g = fm.get_named_file(name)
+                    if not g or not os.path.isfile(g) or open(g, "rb").read() != b:
+                        out["problems"].append(f"load {load}: get_named_file({name!r}) = {g!r} does not hold the bytes of its file")
+                    mp = os.path.join(fm.named_files_dir, name, "manifest.json")
+                    n = len(json.load(open(mp))) if os.path.exists(mp) else -1
+                    if n != 1:
+                        out["problems"].append(f"load {load}: the manifest of {name!r} has {n} entries, expected 1")
+                extra = sorted(set(os.listdir(fm.named_files_dir)) - set(want))
+                if extra:
+                    out["problems"].append(f"load {load}: unexpected names {extra}")
+    except Exception as ex:  # noqa
+        out["exc"] = type(ex).__name__ + ": " + str(ex)[:160]
+    finally:
+        os.chdir(home)
+        shutil.rmtree(d, ignore_errors=True)
+    return out
+
+
 def run(ctx):
     rng = ctx.rng
     quick = ctx.tier == "quick"
     dn = pmap(ctx, digest_named, [0], chunksize=1)[0]
+    fd = pmap(ctx, from_dir, [0], chunksize=1)[0]
     hs = []
     for n in range(1, (3 if quick else 4) + 1):
         hs += [list(t) for t in itertools.product(ALPHA, repeat=n)]
@@ -190,6 +233,9 @@ def run(ctx):
     if dn["exc"] or dn["problems"]:
         ctx.violation("digest-named-source", {"what": "registering a source file that is named by the digest of its own bytes does not leave those bytes in the store under that name "
                                                       "(defect D27, listed fixed, is back)", "case": dn})
+    if fd["exc"] or fd["problems"]:
+        ctx.violation("from-dir", {"what": "add_named_files_from_dir does not register one name per file (file name without its last extension) holding that file's bytes, "
+                                           "or a second load of the unchanged directory registers something", "case": fd})
     if spec_bad:
         # shortest failing history first
         i = min(spec_bad, key=lambda k: len(hs[k]))
@@ -200,7 +246,7 @@ def run(ctx):
         ctx.violation("correspondence", {"what": "correspondence Mgr/FileStore.v vs FileManager/FileRegistrar no longer checks (Harness/C11Cmp.c11_agree); theorems C11_* are about the model only",
                                          "disagreeing_case": case(i)}, no_input=True)
     ctx.coverage.update({
-        "digest_named_source_scenario": dn, "evaluations": len(hs), "distinct_nontrivial": len({repr(h) for h, r in zip(hs, res) if not r["exc"] and any(o[0] == "add" for o in h) and len(h) >= 2}),
+        "digest_named_source_scenario": dn, "from_dir_scenario": fd, "evaluations": len(hs), "distinct_nontrivial": len({repr(h) for h, r in zip(hs, res) if not r["exc"] and any(o[0] == "add" for o in h) and len(h) >= 2}),
         "rule": f"every operation sequence of length 1..{exhaustive_upto} over the 13-letter alphabet add(2 names x 2 source files), mutate(2 sources x 3 contents), remove(2 names), new instance "
                 f"(exhaustive), plus random sequences of length 4-10 biased towards adds; real FileManager in a scratch tree, full abstraction of the store after every operation. "
                 "Non-trivial = distinct history of length >= 2 containing an add.",
